@@ -39,7 +39,7 @@ class SimThread:
     __slots__ = (
         "tid", "name", "gate", "state", "pred", "deadline", "waiting_on",
         "exc", "done_lock", "pending_interrupt", "kind", "handle", "prio",
-        "ops", "parked_in_trace", "intr_ok",
+        "ops", "parked_in_trace", "intr_ok", "after_intr",
     )
 
     def __init__(self, tid, name, kind):
@@ -61,6 +61,7 @@ class SimThread:
         self.ops = 0
         self.parked_in_trace = False
         self.intr_ok = True
+        self.after_intr = False
 
     def describe(self):
         w = self.waiting_on
@@ -457,6 +458,9 @@ class Sim:
             raise SimAbort()
         me = self.current
         me.ops += 1
+        if me.after_intr:
+            me.after_intr = False
+            self.log("post-interrupt-op", me.tid, str(what))
         if interruptible and me.pending_interrupt is not None:
             self._deliver_interrupt(me, what)
         self.steps += 1
@@ -475,6 +479,7 @@ class Sim:
         exc = me.pending_interrupt
         me.pending_interrupt = None
         self.interrupts_delivered += 1
+        me.after_intr = True
         self.log("interrupt-delivered", me.tid, str(what))
         raise exc
 
